@@ -150,3 +150,38 @@ def close(a, b, rtol, atol=0.0):
   d = maxabs(a - b)
   scale = maxabs(b)
   return d <= atol + rtol * scale, (d / scale if scale > 0 else d)
+
+
+def bfs(acc, s0, r0, events, depth, step, ref_step, check, canon,
+        max_states=200000):
+  """Explicit-state BFS over the real transition function.
+
+  step(state, ev) -> (out, state'); ref_step(ref, ev) -> (ref_out, ref');
+  check(hist, state, ev, out, state2, ref, ref_out, ref2) reports through acc.
+  States are merged only when canon(state, ref) (bit exact) coincide.
+  Returns the list of (state, ref, hist) reached at the last level.
+  """
+  seen = {canon(s0, r0)}
+  acc.states += 1
+  frontier = [(s0, r0, ())]
+  for _ in range(depth):
+    nxt = []
+    for s, r, hist in frontier:
+      for ev in events:
+        out, s2 = step(s, ev)
+        rout, r2 = ref_step(r, ev)
+        acc.transitions += 1
+        h2 = hist + (ev,)
+        check(h2, s, ev, out, s2, r, rout, r2)
+        k = canon(s2, r2)
+        if k in seen:
+          acc.outcome("merged_states")
+          continue
+        if len(seen) >= max_states:
+          acc.caps.append("max_states=%d" % max_states)
+          return nxt
+        seen.add(k)
+        acc.states += 1
+        nxt.append((s2, r2, h2))
+    frontier = nxt
+  return frontier
